@@ -251,7 +251,7 @@ class Gen:
             cls['parent'] = 'bool'
         nf = r.randint(0, 3)
         for _ in range(nf):
-            fn = r.choice(['a', 'b', 'c', 'x', 'y', 'aa', 'ab', 'z9', '_f', 'B'])
+            fn = r.choice(['a', 'b', 'c', 'x', 'y', 'aa', 'ab', 'z9', '_f', 'B', 'm', 'f'])     # m, f, a, x: also method names (separate namespaces)
             if fn in cls['fields']:
                 continue
             k = r.choice(['int', 'int', 'bool', 'null'])
@@ -259,7 +259,7 @@ class Gen:
             cls['fields'][fn] = k
         nm = r.randint(0, 2)
         for _ in range(nm):
-            mn = r.choice(['m', 'k', 'get', 'set', '+', '==', 'inc', '<', '&', 'f'])
+            mn = r.choice(['m', 'k', 'get', 'set', '+', '==', 'inc', '<', '&', 'f', 'a', 'x'])
             if mn in cls['methods']:
                 continue
             if mn == 'get':
